@@ -175,10 +175,12 @@ func (d *dstSto) ReceiveBlob(ctx context.Context, br blob.Ref, r io.Reader) (blo
 	return d.Storage.ReceiveBlob(ctx, br, r)
 }
 
-// ixDst is the destination of the "index" configuration: a real index.Index
-// over a gate KV.  The outcome of every receive is logged as the index
-// reported it; after an error the index rows tell whether the blob was
-// recorded all the same ("after").
+// ixDst is the destination of the "index" configuration: a real index.Index over a gate KV.  The
+// destination failures of the scenario are failures of the destination as a blob receiver, so they are
+// injected here, around the index: "error" = the call fails before the index sees the blob, "after" = the index
+// processed it but the reply is an error, "wrongsize" = it processed it and size+1 is reported.  The outcome of
+// every receive is logged as reported; if the process died inside the index, the rows tell whether the blob got
+// recorded all the same (logged as "after": stored, reply lost).
 type ixDst struct {
 	*index.Index
 	fl      *flight
@@ -186,28 +188,63 @@ type ixDst struct {
 	id      func(blob.Ref) int
 	backing sorted.KeyValue
 	plan    *gate.Plan
+	mu      sync.Mutex
+	n       int
+	pat     []string
+}
+
+func (d *ixDst) consumed() bool {
+	d.mu.Lock()
+	defer d.mu.Unlock()
+	return d.n >= len(d.pat)
 }
 
 func (d *ixDst) ReceiveBlob(ctx context.Context, br blob.Ref, r io.Reader) (blob.SizedRef, error) {
 	d.fl.in()
 	defer d.fl.out()
+	if d.plan.Frozen() {
+		return blob.SizedRef{}, gate.ErrFrozen
+	}
+	d.mu.Lock()
+	o := "ok"
+	if d.n < len(d.pat) {
+		o = d.pat[d.n]
+	}
+	d.n++
+	d.mu.Unlock()
+	if o == "error" {
+		io.Copy(io.Discard, r)
+		d.lg.Emit(gate.Event{"ev": "recv", "b": d.id(br), "res": "error"})
+		return blob.SizedRef{}, gate.ErrInjected
+	}
 	sb, err := d.Index.ReceiveBlob(ctx, br, r)
 	if d.plan.Frozen() {
 		// died inside the index: whatever reached the rows is durable, the reply is lost
-		if err == nil {
-			err = gate.ErrFrozen
+		if _, gerr := d.backing.Get("have:" + br.String()); gerr == nil {
+			d.lg.Emit(gate.Event{"ev": "recv", "b": d.id(br), "res": "after"})
 		}
-		return sb, err
+		return blob.SizedRef{}, gate.ErrFrozen
 	}
-	res := "ok"
 	if err != nil {
-		res = "error"
+		// the index itself refused the blob: an observation like any other
+		res := "error"
 		if _, gerr := d.backing.Get("have:" + br.String()); gerr == nil {
 			res = "after"
 		}
+		d.lg.Emit(gate.Event{"ev": "recv", "b": d.id(br), "res": res})
+		return sb, err
 	}
-	d.lg.Emit(gate.Event{"ev": "recv", "b": d.id(br), "res": res})
-	return sb, err
+	switch o {
+	case "after":
+		d.lg.Emit(gate.Event{"ev": "recv", "b": d.id(br), "res": "after"})
+		return blob.SizedRef{}, gate.ErrInjected
+	case "wrongsize":
+		d.lg.Emit(gate.Event{"ev": "recv", "b": d.id(br), "res": "wrongsize"})
+		sb.Size++
+		return sb, nil
+	}
+	d.lg.Emit(gate.Event{"ev": "recv", "b": d.id(br), "res": "ok"})
+	return sb, nil
 }
 
 // qKV is the queue gate.  The uploader's Set and the copier's Delete of the same row may run concurrently
@@ -370,22 +407,18 @@ func (r *run) start(ph *Phase) bool {
 		fatal(fmt.Errorf("run %d: starting an incarnation failed although nothing was frozen: %v", r.scn.ID, err))
 		return false
 	}
-	// destination failure pattern: the k-th destination write (mem) / index row commit (index) of this incarnation
-	fl, fc := "dst", "ReceiveBlob"
-	if r.scn.Cfg == "index" {
-		fl, fc = "ixkv", "CommitBatch"
-	}
-	j := 0
-	for a, kind := range ph.Dst {
-		if kind == "ok" || kind == "" {
-			continue
+	// destination failure pattern: the k-th destination write of this incarnation (mem: plan faults at the
+	// gate store; index: at the recording wrapper around the index)
+	if r.scn.Cfg != "index" {
+		j := 0
+		for a, kind := range ph.Dst {
+			if kind == "ok" || kind == "" {
+				continue
+			}
+			// faults are matched in list order and a fault that fires hides the call from the later ones
+			inc.plan.Faults = append(inc.plan.Faults, &gate.Fault{Layer: "dst", Call: "ReceiveBlob", N: a + 1 - j, Kind: kind})
+			j++
 		}
-		if r.scn.Cfg == "index" && kind == "wrongsize" {
-			kind = "error"
-		}
-		// faults are matched in list order and a fault that fires hides the call from the later ones
-		inc.plan.Faults = append(inc.plan.Faults, &gate.Fault{Layer: fl, Call: fc, N: a + 1 - j, Kind: kind})
-		j++
 	}
 	if r.scn.Cfg == "index" {
 		kv := gate.NewKV("ixkv", r.ixBack, inc.plan, nil)
@@ -394,7 +427,7 @@ func (r *run) start(ph *Phase) bool {
 			return died(err)
 		}
 		ix.InitBlobSource(sg)
-		inc.dstI = &ixDst{Index: ix, fl: r.fl, lg: r.lg, id: r.u.id, backing: r.ixBack, plan: inc.plan}
+		inc.dstI = &ixDst{Index: ix, fl: r.fl, lg: r.lg, id: r.u.id, backing: r.ixBack, plan: inc.plan, pat: ph.Dst}
 		ld.m["/dst/"] = inc.dstI
 	} else {
 		dg := gate.NewStorage("dst", r.dstMem, inc.plan, r.lg)
@@ -717,7 +750,9 @@ func (r *run) exec() {
 			continue
 		}
 		// last phase: use up the armed faults, heal, wait (bounded) for delivery
-		r.await(func() bool { return inc.plan.HitCount() == len(inc.plan.Faults) && inc.src.consumed() }, watchdog, func() bool { return true })
+		r.await(func() bool {
+			return inc.plan.HitCount() == len(inc.plan.Faults) && inc.src.consumed() && (inc.dstI == nil || inc.dstI.consumed())
+		}, watchdog, func() bool { return true })
 		r.fl.drain()
 		inc.src.mu.Lock()
 		inc.src.healed = true
@@ -974,7 +1009,9 @@ func main() {
 					}
 					t := s
 					t.Cfg = c
-					t.ID = len(scns)
+					if *cfgs != "asis" {
+						t.ID = len(scns) // the replay of a recorded run keeps its id (it selects the index permutation)
+					}
 					scns = append(scns, &t)
 				}
 			}
